@@ -444,3 +444,49 @@ Definition mdcase_spec (c : mdcase) : bool :=
   | None => true
   end.
 Definition check_mdcases := check_cases mdcase_agree mdcase_spec.
+
+(* ---------- samlsp.Middleware.HandleStartAuthFlow (the entry point that emits the AuthnRequest) ---------- *)
+(* binding resolution: m.Binding when set; otherwise HTTP-Redirect when the IdP
+   metadata has a (non-empty) redirect SSO location, else HTTP-POST *)
+Definition mw_resolve (mbinding : string) (has_redirect : bool) : string :=
+  if nonempty mbinding then mbinding else if has_redirect then HTTP_REDIRECT else HTTP_POST.
+
+(* what is sent: a 302 to the redirect URL (with the detached signature or not)
+   or the POST page (with the enveloped signature or not) *)
+Inductive mw_out := MwRedirect (redirect_sig : bool) | MwPost (xml_sig : bool).
+
+(* MakeAuthenticationRequest(location, RESOLVED binding, m.ResponseBinding), then
+   Redirect / Post; an error is answered with 500; any other binding: panic("not reached") *)
+Definition mw_start (mbinding : string) (has_redirect : bool) (method : string) (kt : keytype) : outcome mw_out :=
+  let b := mw_resolve mbinding has_redirect in
+  if seqb b HTTP_REDIRECT then
+    do _ <- make_message AuthnReq BRedirect method kt;
+    if nonempty method then do _ <- signing_context method kt; Ok (MwRedirect true) else Ok (MwRedirect false)
+  else if seqb b HTTP_POST then
+    do x <- make_message AuthnReq BPost method kt; Ok (MwPost x)
+  else
+    do _ <- make_message AuthnReq BRedirect method kt; Panic.
+
+(* middleware case: m.Binding, whether the IdP has redirect / POST SSO endpoints,
+   method, key type; observed: 0 = 302, 1 = 200 POST page, 2 = 500, 3 = panic,
+   and which signature the emitted AuthnRequest carries *)
+Record mwcase := {
+  mw_mbinding : string; mw_has_redirect : bool; mw_has_post : bool; mw_method : string; mw_kt : Z;
+  mw_cls : Z; mw_xmlsig : bool; mw_redirsig : bool }.
+Definition mwcase_agree (c : mwcase) : bool :=
+  match mw_start (mw_mbinding c) (mw_has_redirect c) (mw_method c) (kt_of (mw_kt c)) with
+  | Ok (MwRedirect s) => (mw_cls c =? 0) && Bool.eqb s (mw_redirsig c) && negb (mw_xmlsig c)
+  | Ok (MwPost x) => (mw_cls c =? 1) && Bool.eqb x (mw_xmlsig c) && negb (mw_redirsig c)
+  | Err _ => mw_cls c =? 2
+  | Panic => mw_cls c =? 3
+  end.
+(* with signing configured the request that leaves through the middleware is
+   signed (detached for the redirect, enveloped for the POST page), or the
+   flow is refused; never an unsigned request *)
+Definition mwcase_spec (c : mwcase) : bool :=
+  if nonempty (mw_method c) then
+    if is_ok (signing_context (mw_method c) (kt_of (mw_kt c)))
+    then ((mw_cls c =? 0) && mw_redirsig c) || ((mw_cls c =? 1) && mw_xmlsig c) || (mw_cls c =? 3)
+    else negb ((mw_cls c =? 0) || (mw_cls c =? 1))
+  else true.
+Definition check_mwcases := check_cases mwcase_agree mwcase_spec.
